@@ -649,6 +649,7 @@ type PeerRow struct {
 	Peer, RPC, DC, Rack, HostID, Version, SchemaVersion string
 	Tokens                                              []string
 	NullRPC, NullHostID, NullDC, NullRack, NullTokens   bool
+	NullPeer                                            bool
 }
 
 // PeersOf lists the peers host h reports: every other host of the model.
@@ -692,7 +693,7 @@ func (cl *Cluster) PeerRows(version int, peers []PeerRow) (*cqlspec.RowsMeta, []
 			tok = cqlspec.Cell{Null: true}
 		}
 		rows = append(rows, []cqlspec.Cell{
-			cell(ipBytes(p.Peer)), nullable(p.NullDC, cqlspec.EncText(p.DC)), nullable(p.NullHostID, hid),
+			nullable(p.NullPeer, ipBytes(p.Peer)), nullable(p.NullDC, cqlspec.EncText(p.DC)), nullable(p.NullHostID, hid),
 			{Null: true}, nullable(p.NullRack, cqlspec.EncText(p.Rack)), cell(cqlspec.EncText(p.Version)),
 			nullable(p.NullRPC, rpc), cell(uuidBytes(p.SchemaVersion)), tok,
 		})
